@@ -134,7 +134,7 @@ def gen_num(e, d):
     if c == 15:
         return '%s(%s, %s)' % (r.choice(['min', 'max']), gen_num(e, d - 1), gen_num(e, d - 1))
     if c == 16:
-        f = r.choice(['round', 'floor', 'ceil', 'abs', 'int', 'round2', 'floor', 'ceil'])
+        f = r.choice(['round', 'floor', 'ceil', 'abs', 'int', 'round2', 'floor', 'ceil', 'float'])
         if f == 'round2':
             return 'round(%s, %s)' % (gen_num(e, d - 1), r.choice(['0', '1', '2', '3']))
         return '%s(%s)' % (f, gen_num(e, d - 1))
